@@ -124,6 +124,24 @@ impl ErrTx {
             r is Err ==> final(env).errs == old(env).errs,
     { unimplemented!() }
 }
+// mpsc::error::{TrySendError, SendError} and Sender::try_send: not used by the worker today; present so that a change to a non-blocking send is
+// decided (an error refused because the queue is full is NOT delivered) instead of falling outside the subset
+pub enum TrySendError<T> { Full(T), Closed(T) }
+pub struct SendError<T>(pub T);
+impl<T> SendError<T> {
+    #[verifier::external_body]
+    pub fn into(self) -> (r: CriticalError) ensures r is ErrorChannelSend { unimplemented!() }
+}
+impl ErrTx {
+    #[verifier::external_body]
+    pub fn try_send(&self, e: RuntimeError, env: &mut WEnv) -> (r: Result<(), TrySendError<RuntimeError>>)
+        ensures final(env).now == old(env).now, final(env).recvd == old(env).recvd, final(env).verdicts == old(env).verdicts,
+            final(env).filter_calls == old(env).filter_calls, final(env).throttle_const == old(env).throttle_const, final(env).closed == old(env).closed,
+            final(env).last_now == old(env).last_now, final(env).mark == old(env).mark,
+            r is Ok ==> final(env).errs@ == old(env).errs@.push(e.id),
+            r is Err ==> final(env).errs == old(env).errs,
+    { unimplemented!() }
+}
 // tokio::time::timeout(maxtime, events.recv()): Ok(Ok(msg)) = a message was received at the return time, no later than maxtime after the
 // call; Err(Elapsed) = maxtime passed without a message; Ok(Err) = channel closed and empty
 #[verifier::external_body]
